@@ -251,11 +251,12 @@ class XsdWildcard(XsdComponent):
             if '##any' in self.namespace:
                 return False
             elif '##other' in self.namespace:
-                return other.not_namespace.issubset(('', other.target_namespace))
+                return other.not_namespace.issubset(('', self.target_namespace))
             else:
                 return all(ns not in other.not_namespace for ns in self.namespace)
 
-        if self.namespace == other.namespace:
+        if self.namespace == other.namespace and \
+                ('##other' not in self.namespace or self.target_namespace == other.target_namespace):
             return True
         elif '##any' in other.namespace:
             return True
